@@ -186,6 +186,8 @@ def cases(tier):
         out.append({'tables': [temporal_tbl], 'cfg': dict(cfg, revkeys=True)})
         out.append({'tables': [many_sorted], 'cfg': dict(cfg, mutate_after=True)})
         out.append({'tables': [many_sorted], 'cfg': dict(cfg, numdialect=True)})
+        out.append({'tables': [{'fields': [['a', 'number'], ['b', 'string']], 'rows': [[E(1234.5), E('x')], [E(-0.25), E(None)], [E(1000000), E('y')]]}],
+                    'cfg': dict(cfg, numdialect=True)})
         out.append({'tables': [many_sorted, {'fields': [['z', 'string']], 'rows': [[E('x')]]}], 'cfg': dict(cfg, chain_other_format=True)})
         out.append({'tables': [many_sorted], 'cfg': dict(cfg, revkeys=True)})
     for cfg in full:
